@@ -121,6 +121,40 @@ def c17(tier, seed):
     fam("longline", 0, 1, 4)
     return jobs
 
+# ---------------------------------------------------------------- C20
+@prop("C20", "exploration",
+      "generator-as-oracle. INI: every document of <= 4 lines (thorough 5) over 16 line kinds (comment, blank, [s], [t], [], "
+      "k=v, k=${k'}, k=${s.k'}, k=${%ENV}, k=${undefined}, k without separator, k=${t.}) x 8 whitespace/CRLF layouts x "
+      "separators = and :, expected value = fixpoint of replacing defined references (documents whose references are "
+      "self-referential are not well-formed: skipped and counted); @INCLUDE through qconfig_parse_file at first/middle/"
+      "last line, relative and absolute. Apache: (i) every option declaration TAKE0..5/TAKEALL x per-argument and default "
+      "types STR/INT/FLOAT/BOOL x argument vectors over 34 values incl. all 24 boolean spellings; (ii) every argument list "
+      "of <= 3 arguments over 12 strings x bare/single/double quoting x 4 separators x 2 line endings; (iii) every document "
+      "of nested blocks (<= 2 items per block, nesting depth <= 2; thorough depth 3) over scoped options, two section options, "
+      "unregistered and wrong-case names, closes that match / mismatch / are missing, x 4 flag sets. "
+      "non-trivial = contains a reference/section, an accepted typed directive, a quoted argument, or a section",
+      ["the generator's meaning of each document is the oracle", "popen wrapped to fail", "count of ignored unknown directives: either convention accepted",
+       "float syntax = digits with one inner dot (as the source documents); '1.' and '.5' are not floats"],
+      [need("evaluations", 100000), need("nontrivial", 10000)])
+def c20(tier, seed):
+    H = ["inputmc/c20.c"]
+    W = ["popen"]
+    X = 1 if tier == "thorough" else 0
+    jobs = []
+    n = 16
+    for i in range(n):
+        jobs.append(Job("ini-%02d" % i, H, ["ini", 4 + X, i, n], wraps=W, weight=10 if X else 3))
+    for i in range(4):
+        jobs.append(Job("inifile-%d" % i, H, ["inifile", i, 4], wraps=W, weight=3))
+    for p in range(3):
+        jobs.append(Job("actype-%d" % p, H, ["actype", p], wraps=W, weight=4))
+    for i in range(4):
+        jobs.append(Job("acquote-%d" % i, H, ["acquote", 3, i, 4], wraps=W, weight=4))
+    for f, sh in ((0, 1), (1, 4), (2, 12), (3, 12)):
+        for i in range(sh):
+            jobs.append(Job("acstruct-f%d-%02d" % (f, i), H, ["acstruct", f, 2, 2 + X, i, sh], wraps=W, weight=12))
+    return jobs
+
 NOT_YET = {}
 ENGINES = [
     {"name": "inputmc", "path": "engines/inputmc", "serves_properties": ["C16", "C17", "C18", "C19", "C20"],
